@@ -339,7 +339,13 @@ def splitSemi (ts : Toks) : List Toks :=
 def keptVerdict (k : Option Toks) (need : Bool) : Option String :=
   match k with
   | some (_ :: _ :: "ok" :: []) => none
-  | some (_ :: _ :: "changed" :: names) => some ("propfail kept-result " ++ " ".intercalate names)
+  | some (_ :: _ :: "changed" :: names) =>
+    -- second white-box round (harness/c03_wb2.go): the stages that look at ONE call's argument / result
+    if names.any (·.endsWith "@twin") then some ("propfail features-share-memory " ++ " ".intercalate names)
+    else if names.any (fun n => n.endsWith "@marshal" || n.endsWith "@marshalgz") then
+      some ("propfail marshal-writes-argument " ++ " ".intercalate names)
+    else if names.any (·.endsWith "@concurrent") then some ("propfail concurrent-marshal-differs " ++ " ".intercalate names)
+    else some ("propfail kept-result " ++ " ".intercalate names)
   | some _ => some "bad output K section"
   | none => if need then some "bad output no K section" else none
 
